@@ -33,11 +33,13 @@ pub struct MixSpec {
     pub ops_seed: u64,
     pub ops_per_thread: usize,
     pub thorough: bool,
+    /// engine B only: leave out the ops whose set-up builds bootstrapping keys (minutes under Miri)
+    pub light: bool,
 }
 
 impl MixSpec {
     pub fn to_json(&self) -> Value {
-        json!({"n": self.n, "threads": self.threads, "ops_seed": self.ops_seed, "ops_per_thread": self.ops_per_thread, "thorough": self.thorough})
+        json!({"n": self.n, "threads": self.threads, "ops_seed": self.ops_seed, "ops_per_thread": self.ops_per_thread, "thorough": self.thorough, "light": self.light})
     }
     pub fn from_json(v: &Value) -> MixSpec {
         MixSpec {
@@ -46,6 +48,7 @@ impl MixSpec {
             ops_seed: v["ops_seed"].as_u64().unwrap(),
             ops_per_thread: v["ops_per_thread"].as_u64().unwrap() as usize,
             thorough: v["thorough"].as_bool().unwrap_or(false),
+            light: v["light"].as_bool().unwrap_or(false),
         }
     }
     /// op lists are a function of (ops_seed, thread index, position) only, so shrinking the thread
@@ -55,6 +58,9 @@ impl MixSpec {
         let mut ops: Vec<&'static str> = Vec::new();
         for o in all {
             let heavy = o.starts_with("word_") || o.starts_with("circuit_bootstrapping");
+            if self.light && (heavy || o.contains("bdd") || o.contains("blind_rotation") || o.contains("fhe_uint")) {
+                continue;
+            }
             for _ in 0..(if heavy { 1 } else { 4 }) {
                 ops.push(o);
             }
@@ -148,6 +154,35 @@ fn run_mix(r: &Run, spec: &MixSpec, cfg: Option<Config>) -> (Result<RunOut, Stri
         }),
         rep,
     )
+}
+
+/// Engine B: the same lists on plain std threads (Miri's scheduler and race detector decide).
+fn run_mix_unsync(backend_name: &str, spec: &MixSpec) -> Result<RunOut, String> {
+    let b = backend(backend_name);
+    let lists = spec.lists(backend_name);
+    let mut results: Vec<Vec<u64>> = vec![Vec::new(); spec.threads];
+    let lists = &lists;
+    let r = crate::util::catch(|| {
+        std::thread::scope(|scope| {
+            for (t, slot) in results.iter_mut().enumerate() {
+                scope.spawn(move || {
+                    for (op, shape, fill) in &lists[t] {
+                        slot.push(mix_one(b, op, shape, *fill));
+                    }
+                });
+            }
+        });
+    });
+    r.map(|_| RunOut {
+        outs: results.iter().map(|l| l.iter().flat_map(|h| h.to_le_bytes()).collect()).collect(),
+        declared: 0,
+        per_thread: 0,
+        window_len: 0,
+        canary_ok: true,
+        inputs_unchanged: true,
+        module_fingerprint_same: true,
+        items: spec.threads,
+    })
 }
 
 #[derive(Clone, Debug)]
@@ -295,6 +330,7 @@ pub fn generate(seed: u64, idx: u64, thorough: bool) -> Run {
             ops_seed: rng.next(),
             ops_per_thread: rng.range(1, 4) as usize,
             thorough,
+            light: false,
         })
     } else {
         Scenario::Shared(SharedSpec {
@@ -668,17 +704,23 @@ impl CheckImpl for C20 {
             return (Vec::new(), json!({"engine": "miri", "skipped": "VERIF_MIRI=0"}));
         }
         // (scenario, backend, n, number of Miri seeds)
-        let jobs: Vec<(&str, &str, u32, u32)> = match tier {
-            Tier::Quick => vec![("eval", "FFT64Ref", 8, 3), ("shared", "FFT64Ref", 8, 3)],
+        let mut jobs: Vec<(String, &str, u32, u32)> = match tier {
+            Tier::Quick => vec![("eval".to_string(), "FFT64Ref", 8, 3), ("shared".to_string(), "FFT64Ref", 8, 3)],
             Tier::Thorough => vec![
-                ("eval", "FFT64Ref", 8, 16),
-                ("eval", "NTT120Ref", 8, 16),
-                ("shared", "FFT64Ref", 8, 8),
-                ("shared", "NTT120Ref", 8, 8),
-                ("prep", "FFT64Ref", 8, 2),
-                ("prep", "NTT120Ref", 8, 2),
+                ("eval".to_string(), "FFT64Ref", 8, 16),
+                ("eval".to_string(), "NTT120Ref", 8, 16),
+                ("shared".to_string(), "FFT64Ref", 8, 8),
+                ("shared".to_string(), "NTT120Ref", 8, 8),
+                ("prep".to_string(), "FFT64Ref", 8, 2),
+                ("prep".to_string(), "NTT120Ref", 8, 2),
             ],
         };
+        if tier == Tier::Thorough {
+            // MIX under Miri: two threads, two inventory ops each; a different op list per job
+            for j in 0..10u64 {
+                jobs.push((format!("mix:{}", mix(seed, 0xB, j) % 1_000_000), if j % 2 == 0 { "FFT64Ref" } else { "NTT120Ref" }, 8, 1));
+            }
+        }
         let t0 = std::time::Instant::now();
         let first = (seed % 1000) as u32;
         let mut viols = Vec::new();
@@ -687,7 +729,7 @@ impl CheckImpl for C20 {
         let handles: Vec<_> = {
             jobs.iter()
                 .map(|(sc, be, n, k)| {
-                    let (sc, be, n, k) = (sc.to_string(), be.to_string(), *n, *k);
+                    let (sc, be, n, k) = (sc.clone(), be.to_string(), *n, *k);
                     std::thread::spawn(move || {
                         let r = miri_run(&sc, &be, n, first, first + k);
                         (sc, be, n, k, r)
@@ -783,6 +825,36 @@ pub fn miri_main(args: &[String]) -> ! {
             let m = b.prep(&s, &w, None).0;
             s.threads = 1;
             (m, b.prep(&s, &w0, None).0)
+        }
+        sc if sc.starts_with("mix") => {
+            // mix:<ops_seed>: two threads, two inventory ops each, on the shared Module of ring degree n
+            let spec = MixSpec {
+                n,
+                threads: 2,
+                ops_seed: sc.split(':').nth(1).and_then(|x| x.parse().ok()).unwrap_or(1),
+                ops_per_thread: 2,
+                thorough: false,
+                light: true,
+            };
+            crate::sched::UNSCHEDULED.store(true, std::sync::atomic::Ordering::Relaxed);
+            let run = Run {
+                backend: backend_name.to_string(),
+                scenario: Scenario::Mix(spec.clone()),
+                strategy: Strategy::Serial,
+                sched_seed: 0,
+                fill_seed: 1,
+            };
+            let seq = run_mix(&run, &spec, None).0;
+            let par = run_mix_unsync(backend_name, &spec);
+            if let Ok(p) = &par {
+                let words: Vec<u64> = p.outs.iter().flat_map(|o| o.chunks(8).map(|w| u64::from_le_bytes(w.try_into().unwrap()))).collect();
+                println!(
+                    "MIRI-MIX-OPS: {:?} inadmissible={}",
+                    spec.lists(backend_name).iter().flatten().map(|x| x.0).collect::<Vec<_>>(),
+                    words.iter().filter(|w| **w == MIX_ERR).count()
+                );
+            }
+            (par, seq)
         }
         _ => {
             let s = SharedSpec {
